@@ -108,7 +108,7 @@ def mc_only(ctx, c, invariants, properties, name="core-mc-only", timeout=1500):
 
 
 def run_core(ctx, c, invariants, properties, obs, rand_count, rand_depth, rand_loggers, testing=True,
-             dump=True, key_fn=None, max_len=60, rand_cfg=None):
+             dump=True, key_fn=None, max_len=60, rand_cfg=None, tag=""):
     tc = consts_for_tlc(c)
     # ---- 1. exhaustive model check with graph dump
     mc, cfg = gen_mc("MC", "LoggCore", tc,
@@ -118,7 +118,7 @@ def run_core(ctx, c, invariants, properties, obs, rand_count, rand_depth, rand_l
                      plain=dict(MaxLoggers=c["max_loggers"], InitLevel=c["init_level"], MaxList=c.get("max_list", 2)))
     dot = os.path.join(ctx.scratch, "graph")
     r = ctx.model_check("MC", "MC.cfg", files={"MC.tla": mc, "MC.cfg": cfg},
-                        extra=["-dump", "dot,actionlabels", dot] if dump else [], name="core-mc")
+                        extra=["-dump", "dot,actionlabels", dot] if dump else [], name="core-mc" + tag)
     behaviours = []
     cover_info = {}
     if dump:
@@ -152,7 +152,7 @@ def run_core(ctx, c, invariants, properties, obs, rand_count, rand_depth, rand_l
     ctx.run_worker(["core", sp, tp], testing=testing, timeout=1800)
     rows = read_ndjson(tp)
     # ---- 4. validate with TLC
-    bad = validate_core_trace(ctx, rc, tp, rand_loggers)
+    bad = validate_core_trace(ctx, rc, tp, rand_loggers, name="core-trace" + tag)
     # map bad lines to behaviours
     starts = [i for i, r_ in enumerate(rows) if r_["op"] == "Reset"]
     nontrivial = set()
@@ -168,20 +168,24 @@ def run_core(ctx, c, invariants, properties, obs, rand_count, rand_depth, rand_l
         beh = behaviours[bi]
         upto = line - starts[bi]
         ev = rows[line]
-        key = key_fn(ev) if key_fn else "%s:%s" % (ev["op"], ev["k"])
-        what = "after %d call(s), %s(l=%s,k=%s,a=%s,b=%s): observed %s ; model expected %s" % (
-            upto - 1, ev["op"], ev["l"], ev["k"], ev["a"], ev["b"],
-            json.dumps({k: v for k, v in ev.items() if k not in ("op", "l", "k", "a", "b")})[:1500],
-            b["expected"][:1500])
-        ctx.finding(key, what, dict(kind="core", script={**script, "behaviours": [beh[:upto]]}, observed=ev,
-                                    expected=b["expected"], source="edge-cover" if bi < n_cover else "random"))
+        head = "after %d call(s), %s(l=%s,k=%s,a=%s,b=%s): " % (upto - 1, ev["op"], ev["l"], ev["k"], ev["a"], ev["b"])
+        rp = dict(kind="core", script={**script, "behaviours": [beh[:upto]]}, observed=ev,
+                  expected=b["expected"], source="edge-cover" if bi < n_cover else "random")
+        pairs = key_fn(ev, b) if key_fn else None
+        if not pairs:
+            pairs = [("%s:%s" % (ev["op"], ev["k"]),
+                      "observed %s ; model expected %s" % (
+                          json.dumps({k: v for k, v in ev.items() if k not in ("op", "l", "k", "a", "b")})[:1500],
+                          b["expected"][:1500]))]
+        for key, what in pairs:
+            ctx.finding(key, head + what, rp)
     if rows:
         ctx.sample(dict(behaviour=[e for e in behaviours[0][:6]], first_observation=rows[1] if len(rows) > 1 else None))
         if len(behaviours) > n_cover:
             ctx.sample(dict(random_behaviour=behaviours[n_cover][:12]))
-    ctx.extra.update(cover_info)
-    ctx.extra["random_behaviours"] = len(behaviours) - n_cover
-    ctx.extra["trace_events"] = len(rows)
+    ctx.extra.update({k + tag: v for k, v in cover_info.items()})
+    ctx.extra["random_behaviours" + tag] = len(behaviours) - n_cover
+    ctx.extra["trace_events" + tag] = len(rows)
     return rows, bad
 
 
